@@ -98,12 +98,6 @@ func (a *App) Run(tasks []string) error {
 		a.setStream(iostream.Null())
 	}
 
-	// If we want task output as json, we don't want it printing
-	// to stdout too
-	if a.Options.JSON {
-		a.setStream(iostream.Null())
-	}
-
 	if err := a.setup(); err != nil {
 		return err
 	}
@@ -241,6 +235,12 @@ func (a *App) initialise() error {
 
 // runTasks is a helper that runs the request spokfile tasks.
 func (a *App) runTasks(spokfile *file.SpokFile, runner shell.Runner, tasks ...string) error {
+	// If we want task output as json, we don't want it printing to stdout too. Only a run is
+	// reported as json, so only a run is silenced: --show, --vars and the listing still print
+	if a.Options.JSON {
+		a.setStream(iostream.Null())
+	}
+
 	results, err := spokfile.Run(a.stream, runner, a.Options.Force, tasks...)
 	if err != nil {
 		return err
